@@ -122,7 +122,7 @@ class G:
             k = self.pick(kinds)
             if k == "struct":
                 nf = self.int(1, 4)
-                fields = [(f"f{i}", self.value_ty(1)) for i in range(nf)]
+                fields = [(f"m{i}", self.value_ty(1)) for i in range(nf)]
                 t = Struct(self.fresh("S"), fields)
                 self.structs.append(t)
             elif k == "enum":
